@@ -1071,8 +1071,16 @@ static void c19_history(int h, void *arg) {
     }
     b_free(&b);
 }
+/* one history in five is an NV history of the C20 scenario, judged by C20's model: refused ordinals that had already changed the
+   permanent state make the TPM reload it from storage (rollback), and what is not in that blob — the per-area volatile lock
+   flags — has to be carried across the reload */
+static void c19_borrow(int h, void *arg) {
+    (void)arg; tr("borrow prop=C20");
+    int hh = 2 + 12 * ((h / 5) % 5), maxops = 150;
+    c20_history(hh, &maxops);
+}
 static void scen_c19(int histories, int nops) {
-    for (int h = 0; h < histories; h++) iso_run(h, rnd64(), c19_history, &nops, 300);
+    for (int h = 0; h < histories; h++) iso_run(h, rnd64(), h % 5 == 4 ? c19_borrow : c19_history, &nops, 300);
 }
 
 /* =====================================================  replay  ===================================================== */
